@@ -376,8 +376,11 @@ class _InternalBaseTracer(_InternalBaseTracerSuper, metaclass=MetaTracerStateMac
                 return kwargs.get("ret")
             event = evt if isinstance(evt, TraceEvent) else TraceEvent(evt)
             guards_by_spec_id = kwargs.get("guards_by_handler_spec_id")
+            exempt_handlers_only = kwargs.pop("exempt_handlers_only", False)
             for spec in self._event_handlers.get(event, []):
                 if reentrant_handlers_only and not spec.reentrant:
+                    continue
+                if exempt_handlers_only and not spec.exempt_from_guards:
                     continue
                 guard_for_spec = (
                     None
